@@ -27,6 +27,14 @@ func verifDir() string {
 	return "/verif"
 }
 
+// srcDir is where the checker's own sources (reference package) live.
+func srcDir() string {
+	if v := os.Getenv("VERIF_SRC"); v != "" {
+		return v
+	}
+	return "/verif"
+}
+
 func main() {
 	dump := flag.String("dump", "", "pkg:Func to dump the summary of (debug)")
 	repo := flag.String("repo", "/repo", "repository root")
